@@ -389,6 +389,26 @@ fn is_assignment_word(text: &str) -> bool {
     libs::re::re_contains(text, r"^[a-zA-Z0-9_]+=")
 }
 
+/// Whether `path` lies below a directory whose name starts with a `.` that
+/// the pattern does not spell out: `*` does not reach into hidden places.
+fn below_hidden_dir(pattern: &str, path: &str) -> bool {
+    let mut dirs: Vec<&str> = path.split('/').collect();
+    dirs.pop();
+    for dir in dirs {
+        if !dir.starts_with('.') || dir == "." || dir == ".." {
+            continue;
+        }
+        let spelled = pattern.split('/').any(|p| {
+            p.starts_with('.')
+                && glob::Pattern::new(p).map(|x| x.matches(dir)).unwrap_or(false)
+        });
+        if !spelled {
+            return true;
+        }
+    }
+    false
+}
+
 pub fn expand_glob(tokens: &mut types::Tokens) {
     let mut idx: usize = 0;
     let mut buff = Vec::new();
@@ -421,6 +441,9 @@ pub fn expand_glob(tokens: &mut types::Tokens) {
                                 if _basename.starts_with('.') && !show_hidden {
                                     // skip hidden files, you may need to
                                     // type `ls .*rc` instead of `ls *rc`
+                                    continue;
+                                }
+                                if below_hidden_dir(item, &file_path) {
                                     continue;
                                 }
                                 result.push(file_path.to_string());
